@@ -12,6 +12,7 @@ import (
 	"reflect"
 	"strings"
 
+	"github.com/gookit/rux"
 	"github.com/gookit/rux/pkg/binding"
 )
 
@@ -127,6 +128,30 @@ func c18Values(v c18Val) url.Values {
 	return vs
 }
 
+// c18Auto binds through one of the three entry points of automatic binding (which one depends only on the case):
+// binding.Auto, Context.Bind, Context.AutoBind
+func c18Auto(req *http.Request, obj any, k int) error {
+	if k%3 == 0 {
+		return binding.Auto(req, obj)
+	}
+	var err error
+	ran := false
+	r := rux.New()
+	r.Any(req.URL.Path, func(c *rux.Context) {
+		ran = true
+		if k%3 == 1 {
+			err = c.Bind(obj)
+		} else {
+			err = c.AutoBind(obj)
+		}
+	})
+	r.ServeHTTP(httptest.NewRecorder(), req)
+	if !ran {
+		panic("c18: the binding handler was not reached")
+	}
+	return err
+}
+
 func c18Exec(c Sx) (out Sx) {
 	head := c.Head()
 	defer func() {
@@ -162,7 +187,7 @@ func c18Exec(c Sx) (out Sx) {
 			req.Header.Set("Content-Type", ct)
 		}
 		var u c18User
-		if err := binding.Auto(req, &u); err != nil {
+		if err := c18Auto(req, &u, len(c.String())); err != nil {
 			return L(A("src"), A("err"))
 		}
 		if u.Name == "" {
@@ -178,7 +203,7 @@ func c18Exec(c Sx) (out Sx) {
 		fm := c.List[1].Sym()
 		req := c18Req(fm, v, c18Values(v))
 		var got c18Val
-		if err := binding.Auto(req, &got); err != nil {
+		if err := c18Auto(req, &got, len(c.String())); err != nil {
 			return L(A("rt"), A("err"))
 		}
 		got.XMLName, v.XMLName = xml.Name{}, xml.Name{}
@@ -207,7 +232,7 @@ func c18Exec(c Sx) (out Sx) {
 			req.URL.RawQuery = string(body)
 		}
 		var got c18Val
-		if err := binding.Auto(req, &got); err != nil {
+		if err := c18Auto(req, &got, len(c.String())); err != nil {
 			return L(A("mal"), A("err"))
 		}
 		return L(A("mal"), A("ok"))
@@ -243,7 +268,7 @@ func c18Exec(c Sx) (out Sx) {
 			req = httptest.NewRequest("GET", "/x?"+vs.Encode(), nil)
 		}
 		var got c18Checked
-		if err := binding.Auto(req, &got); err != nil {
+		if err := c18Auto(req, &got, len(c.String())); err != nil {
 			return L(A("val"), A("err"))
 		}
 		return L(A("val"), A("ok"))
